@@ -73,6 +73,10 @@ def write_chain(chain: MHLChain, new_hash_list: MHLHashList):
 
     # never truncate the existing chain file in place: write a temporary sibling and move it into place
     temp_file_path = chain.file_path + ".tmp"
+    # start from a fresh file: a leftover of an interrupted run may have further hard links (snapshot copies of the
+    # folder), which must not be written through
+    if os.path.lexists(temp_file_path):
+        os.remove(temp_file_path)
     file = open(temp_file_path, "wb")
     file.write(b'<?xml version="1.0" encoding="UTF-8"?>\n<ascmhldirectory xmlns="urn:ASC:MHL:DIRECTORY:v2.0">\n')
     current_indent = "  "
